@@ -339,6 +339,9 @@ def build(prop, tier="quick"):
         kb.targets.append(Target(name, "h_" + name, excluded=excluded, group="unary"))
 
     kb = misc
+    emit_to_operator(kb, contracts, prop, opnames)
+    route_facts(kb, hdr)
+    types_fact(kb)
     # --- static fact: the lhs pointer handed to go()
     line = "auto *lhs = t_lhs.is_return_value() ? nullptr : static_cast<std::decay_t<decltype(c_lhs)> *>(t_lhs.get_ptr());"
     ok = " ".join(line.split()) in " ".join(hdr.text.split())
@@ -364,3 +367,157 @@ def common_types(hdr, kb):
         raise ExtractionBreak("Common_Types changed")
     kb.slices.append(("enum Common_Types", sl.where(), sl.sha))
     return names
+
+
+# ---------------------------------------------------------------- to_operator / hash
+# operator spellings of the language (written from the language definition, independent of
+# the code's switch): spelling -> (binary opcode, unary opcode or None)
+SPELLINGS = {
+    "==": "equals", "<": "less_than", ">": "greater_than", "<=": "less_than_equal", ">=": "greater_than_equal", "!=": "not_equal",
+    "=": "assign", "++": "pre_increment", "--": "pre_decrement", "*=": "assign_product", "+=": "assign_sum", "-=": "assign_difference",
+    "/=": "assign_quotient", "&=": "assign_bitwise_and", "|=": "assign_bitwise_or", "<<=": "assign_shift_left", ">>=": "assign_shift_right",
+    "%=": "assign_remainder", "^=": "assign_bitwise_xor", "<<": "shift_left", ">>": "shift_right", "%": "remainder", "&": "bitwise_and",
+    "|": "bitwise_or", "^": "bitwise_xor", "~": "bitwise_complement", "+": "sum", "-": "difference", "/": "quotient", "*": "product",
+}
+UNARY = {"+": "unary_plus", "-": "unary_minus"}
+NON_OPERATORS = ["", "=>", "&&", "||", "!", "**", "===", "a", "<>", "+-"]
+
+
+def emit_to_operator(kb, contracts, prop, opnames):
+    import native
+    hh = chai2c.Header("include/chaiscript/utility/hash.hpp")
+    ns = hh.find_anchor("namespace fnv1a")[0]
+    sl = hh.slice_function("static constexpr std::uint32_t hash(Itr begin, Itr end) noexcept", after=ns, unique=False)
+    r = base_rules()
+    c = chai2c.contracts_for(contracts, "fnv1a_hash", prop)
+    kb.emit_function("uint32_t fnv1a_hash(const char *begin, const char *end)", sl, r, c.fn, c.loops, "fnv1a_hash")
+    ah = chai2c.Header(ALG)
+    sl = ah.slice_function("constexpr static Opers to_operator(std::string_view t_str, bool t_is_unary = false) noexcept")
+    lits = re.findall(r'case utility::hash\("((?:[^"\\]|\\.)*)"\):', sl.body)
+    if len(lits) < 25:
+        raise ExtractionBreak("to_operator: case labels not understood")
+    exe = native.build("gen_hash", os.path.join(VERIF, "native", "gen_hash.cpp"))
+    rc, out, err = native.run(exe, lits)
+    vals = out.decode().split()
+    if rc != 0 or len(vals) != len(lits):
+        raise ExtractionBreak("gen_hash failed")
+    kb.native_data.append("case-label constants utility::hash(\"...\") of to_operator: computed by native/gen_hash.cpp from the real hash.hpp")
+    table = dict(zip(lits, vals))
+    r = base_rules()
+    r.add("R8.auto_hash", r"\bconst auto op_hash = utility::hash\(t_str\);", "const uint32_t op_hash = fnv1a_hash(t_str, t_str + t_len);", min_fire=1)
+    r.add("R7.opers", r"\bOpers::(\w+)", r"Opers_\1", min_fire=25)
+
+    def pre(body):
+        def lab(mm):
+            return "case %su:" % table[mm.group(1)]
+        return re.sub(r'case utility::hash\("((?:[^"\\]|\\.)*)"\):', lab, body)
+
+    kb.emit_function("int to_operator(const char *t_str, size_t t_len, bool t_is_unary)", sl, r, [], {}, "to_operator", pre=pre)
+    # finite specification table as harness assertions (every spelling, unary and binary)
+    lines = []
+    n = 0
+    for sp, name in SPELLINGS.items():
+        for un in (0, 1):
+            want = UNARY[sp] if (un and sp in UNARY) else name
+            lines.append('  __CPROVER_assert(to_operator("%s", %d, %d) == Opers_%s, "[P] to_operator(\\"%s\\", unary=%d) == %s");'
+                         % (sp, len(sp), un, want, sp, un, want))
+            n += 1
+    for sp in NON_OPERATORS:
+        lines.append('  __CPROVER_assert(to_operator("%s", %d, 0) == Opers_invalid, "[P] to_operator(\\"%s\\") == invalid");' % (sp, len(sp), sp))
+    kb.add("void h_to_operator(void) {\n" + "\n".join(lines) + '\n  VERIF_CANARY("returns");\n}')
+    t = Target("to_operator", "h_to_operator", enforce=False, loops=False, unwind=5,
+               bounded_note="finite domain: every operator spelling is a literal of length <= 3, the hash loop is fully unwound "
+                            "(unwinding assertions on) - complete for this table, not a bounded stand-in")
+    t.complete = True
+    kb.targets.append(t)
+    kb.functions.append("to_operator")
+
+
+def route_facts(kb, hdr):
+    """supporting static facts (scan, not proof): every per-operator wrapper of Boxed_Number
+    calls oper() with the opcode of its own name and its own arity, and bootstrap registers
+    each wrapper under the spelling the language gives that opcode."""
+    txt = hdr.text
+    bad = []
+    wrappers = {}
+    for mm in re.finditer(r"static (?:const )?(?:Boxed_Number|bool) (\w+)\(([^)]*)\)\s*\{\s*return (?:Boxed_Number|boxed_cast<bool>)\(oper\(Operators::Opers::(\w+),([^;]*)\)\);\s*\}", txt):
+        name, params, op, args = mm.group(1), mm.group(2), mm.group(3), mm.group(4)
+        nparams = len([p for p in params.split(",") if p.strip()])
+        nargs = len([a for a in args.rstrip(")").split(",") if a.strip()])
+        wrappers[name] = nparams
+        if op != name:
+            bad.append("%s dispatches opcode %s" % (name, op))
+        if nargs != nparams:
+            bad.append("%s (%d parameters) calls oper with %d operands" % (name, nparams, nargs))
+    if len(wrappers) < 30:
+        bad.append("only %d wrappers recognised" % len(wrappers))
+    kb.static_facts.append(("boxed_number_wrappers_use_own_opcode_and_arity", not bad, "; ".join(bad) or "%d wrappers" % len(wrappers)))
+    bs = chai2c.Header("include/chaiscript/dispatchkit/bootstrap.hpp")
+    sl = bs.slice_function("static void opers_arithmetic_pod(Module &m)")
+    regs = re.findall(r'm\.add\(fun\(&Boxed_Number::(\w+)\), "([^"]+)"\);', sl.body)
+    bad = []
+    seen = set()
+    for name, sp in regs:
+        ar = wrappers.get(name)
+        want = UNARY.get(sp) if (ar == 1 and sp in UNARY) else SPELLINGS.get(sp)
+        if want != name:
+            bad.append("%s registered as %r" % (name, sp))
+        seen.add(name)
+    missing = (set(SPELLINGS.values()) | set(UNARY.values())) - seen
+    if missing:
+        bad.append("not registered: %s" % sorted(missing))
+    kb.static_facts.append(("function_route_registers_each_opcode_under_its_spelling", not bad, "; ".join(bad) or "%d registrations" % len(regs)))
+    kb.slices.append(("opers_arithmetic_pod", sl.where(), sl.sha))
+
+
+def build_probe():
+    import native
+    return native.build("probe_number", os.path.join(VERIF, "native", "probe_number.cpp"), flags=["-fno-access-control", "-O0"])
+
+
+def replay_fn(kb, t, pr, vals, order, rec):
+    """native replay: the real Boxed_Number::do_oper against the same expression on the same
+    C++ types, over all opcodes x boundary values x lhs kinds for this type pair."""
+    import json
+    import subprocess
+    mm = re.match(r"go_(\w+?)_(\w+)$", t.fn)
+    if not mm:
+        return {"reproduced": False, "note": "no native probe for " + t.fn}
+    exe = build_probe()
+    r = subprocess.run([exe, "search", mm.group(1), mm.group(2), "4"], stdout=subprocess.PIPE, stderr=subprocess.PIPE, timeout=600)
+    cases = []
+    for line in r.stdout.decode("utf-8", "replace").splitlines():
+        try:
+            cases.append(json.loads(line))
+        except ValueError:
+            pass
+    hint = {k: vals.get(k) for k in ("op", "c_lhs", "c_rhs", "t_oper") if k in vals}
+    return {"reproduced": bool(cases), "probe": "native/probe_number.cpp (real Boxed_Number::do_oper vs native C++ expression)",
+            "failing_cases": cases[:4], "verifier_trace_inputs": hint, "probe_summary": r.stderr.decode()[-200:]}
+
+
+def replay_file(rec):
+    import subprocess
+    cases = (rec.get("native_replay") or {}).get("failing_cases") or []
+    if not cases:
+        print("replay: no failing input recorded for obligation %s" % rec.get("obligation"))
+        return 2
+    exe = build_probe()
+    rc = 0
+    for c in cases:
+        r = subprocess.run([exe, "case", c["L"], c["R"], str(c["opcode"]), c["lhs"], c["rhs"], str(c["lhsmode"])],
+                           stdout=subprocess.PIPE, stderr=subprocess.PIPE)
+        if r.returncode != 0:
+            rc = 1
+            print("REPRODUCED on real code: %s" % (r.stdout.decode().strip() or c))
+        else:
+            print("not reproduced: %r" % c)
+    return rc
+
+
+def types_fact(kb):
+    import subprocess
+    exe = build_probe()
+    r = subprocess.run([exe, "types"], stdout=subprocess.PIPE, stderr=subprocess.PIPE)
+    kb.static_facts.append(("get_common_type_of_every_builtin_arithmetic_type (native, exhaustive over 25 types, not a proof)",
+                            r.returncode == 0, (r.stdout.decode() + r.stderr.decode()).strip()[-300:]))
